@@ -47,9 +47,19 @@ type ExecFunc func(p Plan) Outcome
 // HarnessError into a harness error as well (scenarios recover the panics that
 // are library outcomes themselves, at the call site).
 func RunInProcess(sc Scenario, p Plan, st *Stats, status *StatusPage, trace bool) (out Outcome, ctx *RunCtx) {
+	return RunInProcessUntil(sc, p, st, status, trace, time.Time{})
+}
+
+// RunInProcessUntil is RunInProcess with a deadline (shrink candidates only).
+func RunInProcessUntil(sc Scenario, p Plan, st *Stats, status *StatusPage, trace bool, deadline time.Time) (out Outcome, ctx *RunCtx) {
 	ctx = NewRunCtx(st, status, trace)
+	ctx.Deadline = deadline
 	defer func() {
 		if r := recover(); r != nil {
+			if _, ok := r.(CandidateTimeout); ok {
+				out = Outcome{} // inconclusive: treated as "does not fail"
+				return
+			}
 			if he, ok := r.(HarnessError); ok {
 				out = Outcome{Harness: &he}
 				return
